@@ -6,10 +6,13 @@ def sh(cmd, cwd=None, env=None):
     p = subprocess.run(cmd, shell=True, cwd=cwd, env=env, stdout=subprocess.PIPE, stderr=subprocess.STDOUT, text=True)
     return p.returncode, p.stdout
 head = sh('git -C /repo rev-parse HEAD')[1].strip()
+ROUND = int(os.environ.get('SEED_ROUND', '1'))          # round 2: /tmp/wt2_*, /tmp/seed2_*, kept as <id>-3 and <id>-4
+SFX = '' if ROUND == 1 else str(ROUND)
+OFFSET = 2 * (ROUND - 1)
 ids = sys.argv[1:] or ['C%02d' % i for i in range(1, 21)]
 report = []
 for pid in ids:
-    wt, out = '/tmp/wt_%s' % pid, '/tmp/seed_%s' % pid
+    wt, out = '/tmp/wt%s_%s' % (SFX, pid), '/tmp/seed%s_%s' % (SFX, pid)
     if not os.path.isdir(wt) or not os.path.exists(out + '/meta.json'):
         report.append((pid, 0, 'missing')); continue
     sh('git checkout -q -- . && git checkout -q --detach %s' % head, cwd=wt)
@@ -31,7 +34,7 @@ for pid in ids:
         status = 'confirmed' if ok else 'NOT confirmed: tests=%s clean=%s mut=%s' % (t.strip()[-40:], clean.strip()[-80:], mut.strip()[-80:])
         report.append((pid, k, status))
         if ok:
-            dst = '/verif/seeded/%s-%d' % (pid, k)
+            dst = '/verif/seeded/%s-%d' % (pid, k + OFFSET)
             os.makedirs(dst, exist_ok=True)
             shutil.copy(patch, dst + '/patch.diff'); shutil.copy(demo, dst + '/demo.py')
             m = [x for x in meta if x.get('patch') == 'patch%d.diff' % k]
